@@ -23,6 +23,29 @@ class Call:
         return 'call@%s %s = %s -> %s' % (self.block, self.dest, self.callee[:60], self.ret)
 
 
+def _split_call(text):
+    """`_5 = path::<T, (A, B)>::f(move _1, const 2)` -> (dest, callee, args); the argument list is the LAST top-level
+    parenthesised group (type arguments may contain parentheses themselves)."""
+    text = text.strip()
+    if not text.endswith(')'):
+        return None
+    depth = 0; i = len(text) - 1
+    while i >= 0:
+        c = text[i]
+        if c == ')': depth += 1
+        elif c == '(':
+            depth -= 1
+            if depth == 0: break
+        i -= 1
+    if i <= 0:
+        return None
+    head = text[:i]; args = text[i + 1:-1]
+    m = re.match(r'(\S+(?: as [^=]*)?|\(\*_\d+\)[^=]*?) = (.*)$', head)
+    if m:
+        return m.group(1), m.group(2), args
+    return None, head, args
+
+
 class Cfg:
     def __init__(self, mir, fn_re):
         m = re.search(r'^fn [^\n]*?' + fn_re + r'[^\n]*\{\n', mir, re.M)
@@ -63,9 +86,11 @@ class Cfg:
                 mm = re.search(r'-> (bb\d+);$', term)
                 if mm:
                     self.edges.append((b, 'goto', mm.group(1)))
-            mc = re.match(r'(?:(\S.*?) = )?(.+?)\((.*)\) -> \[return: (bb\d+)', term)
+            mc = re.match(r'(.*) -> \[return: (bb\d+)', term)
             if mc and not term.startswith(('drop(', 'assert(', 'switchInt(', 'falseEdge', 'falseUnwind')):
-                self.calls[b] = Call(b, mc.group(1), mc.group(2), mc.group(3), mc.group(4))
+                parsed = _split_call(mc.group(1))
+                if parsed:
+                    self.calls[b] = Call(b, parsed[0], parsed[1], parsed[2], mc.group(2))
         self.succ = {}
         for a, l, c in self.edges:
             self.succ.setdefault(a, []).append((l, c))
@@ -111,6 +136,10 @@ class Cfg:
                 loc = mm.group(1); cur = mm.group(3)
                 mode = 'bool' if mm.group(2) in ('is_ok', 'is_some') else 'nbool'
                 continue
+            mm = re.match(r'(_\d+) = (?:std::result::)?Result::<.*>::(?:map_err|map)::<.*\((?:move |copy )?' + re.escape(loc) + r'[,)].* -> \[return: (bb\d+)', term)
+            if mm:
+                # map / map_err keep the Ok / Err discriminant
+                loc = mm.group(1); cur = mm.group(2); continue
             mm = re.match(r'goto -> (bb\d+);$', term)
             if mm:
                 cur = mm.group(1); continue
